@@ -6,6 +6,9 @@ package props
 // sandbox.XMCache over a backing ledger.XMReader. Oracle: an overlay-map model written from the
 // statement, the read/write-set rules (a)(b)(c), and a replay of the same calls over
 // sandbox.XMReaderFromRWSet(rwset) (what state.verifyTxRWSets does).
+// Two bucket universes: kv / kvx / transient (check sandbox-sequence), and a generated bucket family
+// whose names extend one another with bytes below / above the raw-key separator (c10GenFamily, check
+// sandbox-sequence-bucket-family; "several buckets" of the quantifier, scans from the bucket start).
 //
 // The backing state (i) is c10Mimic, a small ledger.XMReader with the observable behaviour of the
 // ledger's xmodel.XModel (bcs/ledger/xledger/state/xmodel/xmodel.go):
@@ -65,6 +68,22 @@ var (
 	c10Keys   = []string{"a", "aa", "ab", "b", "ba", "c"}
 	c10Bounds = []string{"", "a", "aa", "aaa", "ab", "b", "b0", "ba", "c", "d"}
 )
+
+// Bucket families (check "sandbox-sequence-bucket-family"): several stored buckets whose names extend one
+// another. A raw key is bucket + "/" + key, so the keys of a bucket whose name is <b> + <byte below '/'> + ...
+// sort between the bare name "<b>" and the first possible key "<b>/" of bucket <b>, the keys of a bucket
+// <b> + <byte above '/'> + ... sort behind all keys of <b>; a scan of <b> (from the bucket start in particular)
+// must stay inside <b> in both cases. The separator itself never occurs in a bucket name (raw keys of two
+// buckets would alias), bucket names are plain ASCII (JSON-able traces).
+const c10FamBase = "kv"
+
+var (
+	c10ExtBelow = []string{" ", "#", "$", "-", "."} // bytes sorting below the separator '/' ('.' = '/' - 1)
+	c10ExtAbove = []string{"0", "2", "_", "x", "~"} // bytes sorting above the separator ('0' = '/' + 1)
+	c10ExtTails = []string{"", "2", "m"}
+)
+
+const c10FamilyCheck = "sandbox-sequence-bucket-family"
 
 // c10Ent is one key of the backing state: live (value V) or deleted (Del), with its version.
 // Keys not listed are never-written.
@@ -134,6 +153,7 @@ func init() {
 		}
 		return runC10Trace(tr, nil)
 	}
+	replayers["C10/"+c10FamilyCheck] = replayers["C10/sandbox-sequence"]
 }
 
 // ---------------------------------------------------------------------------------------------
@@ -500,6 +520,28 @@ func (m *c10Model) bucketKeys(b string) []string {
 	return out
 }
 
+// extTouched: the execution has written, read or been yielded a key of ANOTHER bucket whose name is b followed
+// by a byte below (lo) / above (hi) the bucket separator - the keys that sit next to b's raw key range in the
+// sandbox's caches and in the read set.
+func (m *c10Model) extTouched(b string) (lo, hi bool) {
+	note := func(other string) {
+		if len(other) > len(b) && other[:len(b)] == b {
+			if other[len(b)] < '/' {
+				lo = true
+			} else if other[len(b)] > '/' {
+				hi = true
+			}
+		}
+	}
+	for k := range m.ovl {
+		note(k.B)
+	}
+	for k := range m.mustRead {
+		note(k.B)
+	}
+	return lo, hi
+}
+
 func c10InRange(k string, start, end []byte, endUnbounded bool) bool {
 	if bytes.Compare([]byte(k), start) < 0 {
 		return false
@@ -833,6 +875,20 @@ func c10Run(tr c10Trace, excl map[string]bool) (*c10Stats, error) {
 			if plan.nilEnd {
 				st.l("select-nil-end")
 			}
+			if op.Start == nil || *op.Start == "" {
+				lo, hi := m.extTouched(op.B)
+				kind := "empty"
+				if op.Start == nil {
+					kind = "nil"
+				}
+				if lo {
+					st.l("select-" + kind + "-start-beside-touched-bucket-extended-below-separator")
+					st.nontrivial = true
+				}
+				if hi {
+					st.l("select-" + kind + "-start-beside-touched-bucket-extended-above-separator")
+				}
+			}
 			if len(plan.items) == 0 {
 				st.l("select-empty")
 			}
@@ -1043,10 +1099,42 @@ func c10OpStr(op c10Op) string {
 // ---------------------------------------------------------------------------------------------
 // generators
 
-func c10GenBacking(rt *rapid.T) c10Backing {
+// c10GenFamily: the stored buckets of a bucket-family case: the base bucket and 1-3 buckets whose names extend
+// the base (or an earlier member: nested extension) with a byte below / above the separator and a short tail,
+// e.g. [kv kv.2 kv.2-m kvx]. fam[0] is the base.
+func c10GenFamily(rt *rapid.T) []string {
+	fam := []string{c10FamBase}
+	for i := 0; i < 3; i++ {
+		parent := c10FamBase
+		if i > 0 && rapid.IntRange(0, 3).Draw(rt, "nested") == 0 {
+			parent = fam[rapid.IntRange(1, len(fam)-1).Draw(rt, "parent")]
+		}
+		exts := c10ExtBelow
+		if rapid.IntRange(0, 9).Draw(rt, "above") >= 6 {
+			exts = c10ExtAbove
+		}
+		name := parent + exts[rapid.IntRange(0, len(exts)-1).Draw(rt, "ext")] +
+			c10ExtTails[rapid.IntRange(0, len(c10ExtTails)-1).Draw(rt, "tail")]
+		dup := false
+		for _, f := range fam {
+			dup = dup || f == name
+		}
+		if !dup {
+			fam = append(fam, name)
+		}
+	}
+	return fam
+}
+
+// c10GenBacking: fam == nil: the two fixed buckets kv / kvx; else the buckets of the family.
+func c10GenBacking(rt *rapid.T, fam []string) c10Backing {
 	b := c10Backing{Kind: "xmodel-mimic", Ents: []c10Ent{}, Initiator: "alice", Utxos: []int64{}}
 	vals := []string{"v0", "v1", "v2", "v3", ""}
-	for _, bucket := range []string{c10B1, c10B2} {
+	buckets := []string{c10B1, c10B2}
+	if fam != nil {
+		buckets = fam
+	}
+	for _, bucket := range buckets {
 		for _, k := range c10Keys {
 			s := rapid.IntRange(0, 9).Draw(rt, "state")
 			switch {
@@ -1076,9 +1164,17 @@ func c10GenBound(rt *rapid.T, name string) *string {
 	return c10s(c10Bounds[i])
 }
 
-func c10GenOp(rt *rapid.T, seq int) c10Op {
+// c10GenOp: fam == nil: buckets kv (60%) / kvx (20%) / transient (20%); else the base bucket of the family (40%),
+// the extended ones (50%), transient (10%), and half of the scans start at the bucket start (nil / empty start).
+func c10GenOp(rt *rapid.T, seq int, fam []string) c10Op {
 	bucket := c10B1
 	switch b := rapid.IntRange(0, 9).Draw(rt, "bucket"); {
+	case fam != nil && b >= 9:
+		bucket = c10BT
+	case fam != nil && b >= 4:
+		bucket = fam[1+(b-4)%(len(fam)-1)]
+	case fam != nil:
+		bucket = fam[0]
 	case b >= 8:
 		bucket = c10BT
 	case b >= 6:
@@ -1118,6 +1214,14 @@ func c10GenOp(rt *rapid.T, seq int) c10Op {
 		default: // anything, including start > end and empty end
 			op.Start, op.End = c10GenBound(rt, "start"), c10GenBound(rt, "end")
 		}
+		if fam != nil {
+			switch f := rapid.IntRange(0, 5).Draw(rt, "fromstart"); {
+			case f < 2:
+				op.Start = nil
+			case f < 3:
+				op.Start = c10s("")
+			}
+		}
 		if rapid.IntRange(0, 1).Draw(rt, "stopped") == 1 {
 			op.Stop = rapid.IntRange(1, 3).Draw(rt, "stop")
 		}
@@ -1130,9 +1234,52 @@ func c10GenOp(rt *rapid.T, seq int) c10Op {
 
 // ---------------------------------------------------------------------------------------------
 
+// c10Prop: one generated case; family = the buckets are a bucket family (c10GenFamily) instead of kv / kvx.
+func c10Prop(cs *hx.Case, family bool) {
+	rt := cs.RT()
+	var fam []string
+	if family {
+		fam = c10GenFamily(rt)
+	}
+	tr := c10Trace{Backing: c10GenBacking(rt, fam)}
+	cs.Op(tr.Backing)
+	m := c10NewModel(tr.Backing) // generator-side copy of the model, for the classifiers only
+	n := rapid.IntRange(1, 25).Draw(rt, "nops")
+	for i := 0; i < n; i++ {
+		op := c10GenOp(rt, i, fam)
+		if m.outOfDomain(op) {
+			cs.Label("gen-dropped-nil-end-out-of-domain")
+			continue
+		}
+		dropped := false
+		for _, id := range m.triggers(op) {
+			if c10Exclude[id] {
+				cs.Exclude(id)
+				dropped = true
+			}
+		}
+		if dropped {
+			continue
+		}
+		m.expect(op)
+		tr.Ops = append(tr.Ops, op)
+		cs.Op(op)
+	}
+	st, err := c10Run(tr, nil)
+	if err != nil {
+		cs.Failf("%v", err)
+	}
+	for _, l := range c10SortedLabels(st.labels) {
+		cs.Label(l)
+	}
+	if st.nontrivial {
+		cs.Nontrivial()
+	}
+}
+
 func TestC10(t *testing.T) {
 	c := hx.NewCollector("C10", "exploration",
-		"rapid sequences (1-25 ops) of Get / Put / Del / concurrent commits overwriting a live backing key (keys already read stay at the version seen) / Select (nil, empty, prefix, exact, inverted and out-of-universe bounds; exhausted or stopped after 1-3 items with the NewIterator loop) / Transfer on a sandbox.XMCache over a generated XModel-like backing state (6 prefix-related keys x 2 buckets live / deleted-with-version / never-written, transient bucket never stored); every result is compared with an overlay-map model, the flushed read/write set with rules (a) read keys present with the backing version, (b) write set = final values, (c) written non-transient keys are read, and the same calls are replayed on a fresh XMCache over XMReaderFromRWSet(rwset) + NewUTXOReaderFromInput (verifyTxRWSets) demanding identical results and write set. Non-trivial = a Select executed after a Put/Del inside its range, or a replay of a sequence containing a scan with early stop; distinct = hash of the op trace incl. backing descriptor",
+		"rapid sequences (1-25 ops) of Get / Put / Del / concurrent commits overwriting a live backing key (keys already read stay at the version seen) / Select (nil, empty, prefix, exact, inverted and out-of-universe bounds; exhausted or stopped after 1-3 items with the NewIterator loop) / Transfer on a sandbox.XMCache over a generated XModel-like backing state (6 prefix-related keys x 2 buckets live / deleted-with-version / never-written, transient bucket never stored); a second generator (check sandbox-sequence-bucket-family) runs the same sequences over a bucket family: the base bucket kv and 1-3 further stored buckets whose names extend kv or one another (nested) with a byte sorting below the raw-key separator '/' (space # $ - .) or above it (0 2 _ x ~) plus a short tail (e.g. kv, kv.2, kv.2-m, kvx), half of the operations on the extended buckets, half of the scans starting at the bucket start (nil or empty start key): a scan must yield keys of its own bucket only, whatever sorts next to the bucket's raw key range in the caches and the read set; every result is compared with an overlay-map model, the flushed read/write set with rules (a) read keys present with the backing version, (b) write set = final values, (c) written non-transient keys are read, and the same calls are replayed on a fresh XMCache over XMReaderFromRWSet(rwset) + NewUTXOReaderFromInput (verifyTxRWSets) demanding identical results and write set. Non-trivial = a Select executed after a Put/Del inside its range, or a replay of a sequence containing a scan with early stop, or a scan from the bucket start executed after the execution wrote / read / was yielded a key of another bucket whose name extends the scanned one with a byte below the separator; distinct = hash of the op trace incl. backing descriptor",
 		"the backing reader imitates xmodel.XModel (Get of a never-written key = empty VersionedData, deleted = marker with version, Select = live keys only, no error); the ledger-backed XModel itself is not driven (c10RealBacking TODO)",
 		"a nil end key is only evaluated where XModel and MemXModel agree (no live backing key >= start)",
 		"values never equal the delete marker; Transfer only from the initiator with amount >= 0",
@@ -1159,44 +1306,10 @@ func TestC10(t *testing.T) {
 	resolveSharedFindings(fs, c)
 	regressFixed(t, c, fs, "C10")
 
-	prop := func(cs *hx.Case) {
-		rt := cs.RT()
-		tr := c10Trace{Backing: c10GenBacking(rt)}
-		cs.Op(tr.Backing)
-		m := c10NewModel(tr.Backing) // generator-side copy of the model, for the classifiers only
-		n := rapid.IntRange(1, 25).Draw(rt, "nops")
-		for i := 0; i < n; i++ {
-			op := c10GenOp(rt, i)
-			if m.outOfDomain(op) {
-				cs.Label("gen-dropped-nil-end-out-of-domain")
-				continue
-			}
-			dropped := false
-			for _, id := range m.triggers(op) {
-				if c10Exclude[id] {
-					cs.Exclude(id)
-					dropped = true
-				}
-			}
-			if dropped {
-				continue
-			}
-			m.expect(op)
-			tr.Ops = append(tr.Ops, op)
-			cs.Op(op)
-		}
-		st, err := c10Run(tr, nil)
-		if err != nil {
-			cs.Failf("%v", err)
-		}
-		for _, l := range c10SortedLabels(st.labels) {
-			cs.Label(l)
-		}
-		if st.nontrivial {
-			cs.Nontrivial()
-		}
-	}
+	prop := func(cs *hx.Case) { c10Prop(cs, false) }
 	c.Check(t, "sandbox-sequence", hx.N(100000, 400000), prop)
+	// several stored buckets whose names extend one another around the separator, scans from the bucket start
+	c.Check(t, c10FamilyCheck, hx.N(30000, 120000), func(cs *hx.Case) { c10Prop(cs, true) })
 
 	if hx.Tier() == "thorough" {
 		if rb := c10RealBacking(); rb != nil {
